@@ -200,6 +200,7 @@ impl C19 {
     fn check(case: &C19Case, cx: &mut Ctx) {
         let construct_iv = if case.via_setter { case.initial } else { case.interval };
         cx.label(["loco_sim", "consist_sim", "set_speed", "speed_limited"][case.kind as usize]);
+        cx.label_if(case.kind == 3 && case.pdct == 1 && case.train.as_ref().map(|t| t.links.len() >= 2).unwrap_or(false), "timed_path_walk");
         cx.label(&format!("interval_{:?}", case.interval));
         cx.label_if(case.via_setter, "interval_changed_through_top_level_setter");
         let total_rating: f64 = case.units.iter().map(rated).sum();
@@ -259,6 +260,20 @@ impl C19 {
                     if case.via_setter {
                         sim.set_save_interval(case.interval);
                     }
+                    if case.pdct == 1 && n >= 2 {
+                        // timed-path walk: link k becomes available at a generated time
+                        let mut t = tc.train.init_time;
+                        let mut tp = vec![];
+                        for (k, l) in tc.links.iter().enumerate() {
+                            tp.push(altrios_core::train::LinkIdxTime::new(LinkIdx::new(k as u32 + 1), altrios_core::uc::S * t));
+                            t += (l.length / 8.0).round() + (case.trace.len() % 7) as f64 * 13.0;
+                        }
+                        let r = sim.walk_timed_path(&net, &tp);
+                        if sim.state.i == 1 && sim.history.is_empty() && r.is_err() {
+                            anyhow::bail!("path rejected before the walk started");
+                        }
+                        return Ok((serde_json::to_value(&sim)?, sim.state.i as u64, r.is_ok()));
+                    }
                     let mut started = false;
                     let r = slts_schedule(&mut sim, tc, &net, &path, false, &mut started);
                     if !started {
@@ -311,6 +326,22 @@ impl C19 {
             }
         }
         let want = expected_len(case.interval, executed);
+        // entry k refers to step k: the step column itself is known
+        let want_col: Vec<u64> = match case.interval {
+            None => vec![],
+            Some(n) => {
+                let n = n as u64;
+                let mut c: Vec<u64> = if n == 1 { vec![1] } else { vec![] };
+                c.extend((1..=executed).filter(|k| k % n == 0));
+                c
+            }
+        };
+        if let Some((p, col)) = t.histories.first() {
+            if col.len() == want_col.len() && *col != want_col {
+                let i = col.iter().zip(want_col.iter()).position(|(a, b)| a != b).unwrap_or(0);
+                cx.fail(format!("C19|steps|entry-does-not-refer-to-its-step:{}", kind_of(p)), format!("{p}: entry {i} carries step {} but should carry step {} (interval {:?})", col[i], want_col[i], case.interval));
+            }
+        }
         let reference = t.histories.first().map(|h| h.1.clone());
         for (p, col) in &t.histories {
             // a DummyLoco has no components; everything else must follow
@@ -368,7 +399,7 @@ impl Property for C19 {
     }
     crate::typed_property!(C19, C19Case);
     fn rule(&self) -> String {
-        "simulation kind in {locomotive sim, consist sim, set-speed, speed-limited (walk / link-by-link)} x interval in {None,1,2,3,7} given at construction or changed through the top-level set_save_interval x generated compositions (conventional, battery, default hybrid, dummy) x run lengths incl. runs that end with Err; the serialised object tree is walked generically: every `history` has the same length == [n==1] + #{executed k: k mod n == 0} (0 when disabled), identical step columns, no ragged columns, every nested state.i == top-level counter, every nested save_interval == the interval in force. Non-trivial: interval >= 2, >= 2n executed steps and >= 2 unit kinds".into()
+        "simulation kind in {locomotive sim, consist sim, set-speed, speed-limited (walk / link-by-link / walk_timed_path over generated link times)} x interval in {None,1,2,3,7} given at construction or changed through the top-level set_save_interval x generated compositions (conventional, battery, default hybrid, dummy) x run lengths incl. runs that end with Err; the serialised object tree is walked generically: every `history` has the same length == [n==1] + #{executed k: k mod n == 0} (0 when disabled), identical step columns == the expected step numbers, no ragged columns, every nested state.i == top-level counter, every nested save_interval == the interval in force. Non-trivial: interval >= 2, >= 2n executed steps and >= 2 unit kinds".into()
     }
     fn assumptions(&self) -> Vec<String> {
         vec![
